@@ -8,6 +8,9 @@
    "readers", read_segs_concat) are in Proofs/FaultsIO.v. *)
 From Verif Require Import Lib.Base Lib.Err.
 
+(* linear-time reverse (List.rev is quadratic); equal to rev by rev_alt *)
+Definition frev {A} (l : list A) : list A := rev_append l [].
+
 (* first n bytes (or all, when shorter) and the rest; walks at most n cells *)
 Fixpoint split_at (n : N) (b : bytes) : bytes * bytes :=
   match b with
@@ -75,7 +78,7 @@ Section Reader.
     | Datatypes.S f =>
         let '(d, oe, st') := rd need st in
         let l := lenN d in
-        if (need <=? l)%N then Ok (concat (rev (d :: acc)), st')
+        if (need <=? l)%N then Ok (concat (frev (d :: acc)), st')
         else match oe with
              | None => read_full_go f (need - l)%N (d :: acc) (any || (0 <? l)%N) st'
              | Some e =>
@@ -97,7 +100,7 @@ Section Reader.
     | Datatypes.S f =>
         let '(d, oe, st') := rd (N.min ask need) st in
         let l := lenN d in
-        if (need <=? l)%N then Ok (concat (rev (d :: acc)), st')
+        if (need <=? l)%N then Ok (concat (frev (d :: acc)), st')
         else match oe with
              | None => copy_n_go f ask (need - l)%N (d :: acc) st'
              | Some e => Err e
@@ -170,7 +173,7 @@ Record wtr : Type := mk_wtr {
 
 Definition wtr_new (failat : option N) (m : N) (term : option N) : wtr :=
   mk_wtr [] 0 failat m term false.
-Definition wt_received (w : wtr) : bytes := concat (rev (wt_peer w)).
+Definition wt_received (w : wtr) : bytes := concat (frev (wt_peer w)).
 Definition wt_err (w : wtr) : N := match wt_term w with Some e => e | None => id_ShortWrite end.
 
 (* Write(p), p non-empty: (bytes accepted, error, state) *)
@@ -205,8 +208,10 @@ Definition copy_bytes (p : bytes) (w : wtr) : option N * wtr :=
   end.
 
 (* ---- bufio.Writer (default size 4096) over the transport writer ---- *)
-Record bufw : Type := mk_bufw { bw_buf : bytes; bw_n : N; bw_err : option N; bw_under : wtr }.
+(* the buffer content is kept as the list of copied pieces, most recent first *)
+Record bufw : Type := mk_bufw { bw_rev : list bytes; bw_n : N; bw_err : option N; bw_under : wtr }.
 Definition bufw_new (u : wtr) : bufw := mk_bufw [] 0 None u.
+Definition bw_buf (b : bufw) : bytes := concat (frev (bw_rev b)).
 Definition bw_avail (b : bufw) : N := (bufio_size - bw_n b)%N.
 
 (* Flush:  if b.err != nil { return b.err }; if b.n == 0 { return nil }
@@ -218,14 +223,15 @@ Definition bw_flush (b : bufw) : option N * bufw :=
   | None =>
       if (bw_n b =? 0)%N then (None, b)
       else
-        let '(m, oe, u') := wt_write (bw_buf b) (bw_under b) in
+        let buf := bw_buf b in
+        let '(m, oe, u') := wt_write buf (bw_under b) in
         let oe := match oe with
                   | None => if (m <? bw_n b)%N then Some id_ShortWrite else None
                   | e => e
                   end in
         match oe with
-        | Some e => let (_, tl) := split_at m (bw_buf b) in
-                    (Some e, mk_bufw tl (bw_n b - m)%N (Some e) u')
+        | Some e => let (_, tl) := split_at m buf in
+                    (Some e, mk_bufw [tl] (bw_n b - m)%N (Some e) u')
         | None => (None, mk_bufw [] 0 None u')
         end
   end.
@@ -236,7 +242,9 @@ Definition bw_flush (b : bufw) : option N * bufw :=
        else { n = copy(b.buf[b.n:], p); b.n += n; b.Flush() }
        nn += n; p = p[n:] }
      if b.err != nil { return nn, b.err }
-     n := copy(b.buf[b.n:], p); b.n += n; return nn + n, nil *)
+     n := copy(b.buf[b.n:], p); b.n += n; return nn + n, nil
+   Over a transport that accepts a whole write or breaks for good the loop body runs at most
+   four times (fill+flush, direct write, retry after a short write); [fuel] covers that. *)
 Fixpoint bw_write_go (fuel : nat) (p : bytes) (b : bufw) : option N * bufw :=
   match fuel with
   | O => (Some id_NoProgress, b)
@@ -248,17 +256,16 @@ Fixpoint bw_write_go (fuel : nat) (p : bytes) (b : bufw) : option N * bufw :=
             if (bw_n b =? 0)%N then
               let '(m, oe, u') := wt_write p (bw_under b) in
               let (_, p') := split_at m p in
-              bw_write_go f p' (mk_bufw (bw_buf b) (bw_n b) oe u')
+              bw_write_go f p' (mk_bufw (bw_rev b) (bw_n b) oe u')
             else
               let (a, p') := split_at (bw_avail b) p in
-              let b1 := mk_bufw (bw_buf b ++ a) bufio_size None (bw_under b) in
+              let b1 := mk_bufw (a :: bw_rev b) bufio_size None (bw_under b) in
               let (_, b2) := bw_flush b1 in
               bw_write_go f p' b2
-          else (None, mk_bufw (bw_buf b ++ p) (bw_n b + lenN p)%N None (bw_under b))
+          else (None, mk_bufw (p :: bw_rev b) (bw_n b + lenN p)%N None (bw_under b))
       end
   end.
-Definition bw_write (p : bytes) (b : bufw) : option N * bufw :=
-  bw_write_go (4 + N.to_nat (lenN p / bufio_size)) p b.
+Definition bw_write (p : bytes) (b : bufw) : option N * bufw := bw_write_go 6 p b.
 
 (* io.Copy(bufioWriter, bytes.NewReader(p)): WriteTo calls Write once unless p is empty; the
    short-write test cannot fire, bufio.Writer.Write returns nn < len(p) only with an error *)
